@@ -25,7 +25,10 @@ Record fscript := {
   f_pre : list action;        (* before chain.ProcessFilter *)
   f_pass : bool;              (* calls chain.ProcessFilter (once) *)
   f_post : list action;       (* after it returned *)
-  f_fresh : bool              (* passes on a NEW *Request wrapper (attributes start empty) *)
+  f_fresh : bool;             (* passes on a NEW *Request wrapper (attributes start empty) *)
+  f_mw : nat                  (* 0: a FilterFunction; 1 / 2: an http middleware adapted with HttpMiddlewareHandlerToFilter
+                                 that passes on the same / a derived *http.Request: the adapter rebinds the SAME
+                                 *Request wrapper, so parameters and attributes flow through (filter_adapter.go:11) *)
 }.
 
 (* ---- the state one request works on ---- *)
@@ -178,7 +181,8 @@ Record dcfg := {
   d_handlers : list (Z * list action);        (* route functions, keyed by route id *)
   d_encoding : bool;                          (* Container.EnableContentEncoding *)
   d_recover : bool;                           (* !doNotRecover *)
-  d_recover_script : list action              (* the RecoverHandler *)
+  d_recover_script : list action;             (* the RecoverHandler *)
+  d_condpanic : list Z                        (* routes whose last If-condition panics on requests marked X-Cond-Panic: 1 *)
 }.
 
 Fixpoint zassoc {A} (k : Z) (l : list (Z * A)) : option A :=
@@ -219,7 +223,32 @@ Definition write_service_error (e : rerr) (s : rstate) : res :=
 
 (* container.go:229-300: the body of dispatch after the defers are registered.
    [already]: the writer handed to dispatch is a CompressingResponseWriter *)
+(* the routes whose conditions detectRoute evaluates: the path candidates of the detected service *)
+Definition path_candidates (t : table) (req : request) : list route :=
+  match t_router t with
+  | Curly =>
+      match detect_web_service O (tokenize (rq_path req)) (t_services t) with
+      | None => []
+      | Some w => map cc_route (curly_select_routes O w (tokenize (rq_path req)))
+      end
+  | Jsr311 =>
+      match detect_dispatcher O (rq_path req) (t_services t) with
+      | None => []
+      | Some (w, fin) => map rc_route (jsr_select_routes O w fin)
+      end
+  end.
+
+Definition H_CondPanic := L "X-Cond-Panic".
+(* a condition function panics inside route selection (the panicking condition is the last one of its route:
+   it is reached when the route is a candidate and its other conditions hold) *)
+Definition cond_panic_hit (cfg : dcfg) (req : request) : bool :=
+  str_eqb (hget req H_CondPanic) (L "1") &&
+  existsb (fun r => existsb (Z.eqb (r_id r)) (d_condpanic cfg) && forallb (fun b => b) (r_conds r))
+          (path_candidates (d_table cfg) req).
+
 Definition dispatch_body (cfg : dcfg) (req : request) (already : bool) (s : rstate) : res :=
+  (* container.go:233-239: selection runs inside a closure whose deferred RUnlock always runs *)
+  if cond_panic_hit cfg req then Panicked (L "cond") s else
   match select_route O (d_table cfg) req with
   | inr e =>
       run_chain (d_cfilters cfg) (write_service_error e) s
